@@ -61,14 +61,21 @@ Proof.
   induction (o_puts o) as [|p t IH]; cbn; [reflexivity | exact IH].
 Qed.
 
+Lemma admissible_nonzero : forall ps a e, admissible ps a e = true -> e <> 0.
+Proof.
+  intros ps a e H. unfold admissible in H. apply andb_true_iff in H. destruct H as (H & _).
+  apply negb_true_iff, N.eqb_neq in H. exact H.
+Qed.
+
 Lemma flush_error_sticky : forall ferr exp o, ferr <> 0 -> flush_error ferr exp o <> 0.
 Proof.
   intros ferr exp o H. unfold flush_error.
   destruct (o_fm o =? 0) eqn:Efm; cbn.
   - destruct exp as [|e t]; [exact H|].
-    destruct (first_failure (eff (e :: t) o) =? 0) eqn:Eff; cbn [negb].
-    + destruct (forallb _ _); [exact H | discriminate].
-    + apply N.eqb_neq in Eff. exact Eff.
+    destruct ((first_failure (eff (e :: t) o) =? 0) && forallb (was_put (eff (e :: t) o)) (e :: t)); [exact H|].
+    destruct (admissible _ _ (o_err o)) eqn:Ea; [apply admissible_nonzero in Ea; exact Ea|].
+    destruct (first_failure (eff (e :: t) o) =? 0) eqn:Eff; cbn [negb]; [discriminate|].
+    apply N.eqb_neq in Eff. exact Eff.
   - apply N.eqb_neq in Efm. exact Efm.
 Qed.
 
@@ -80,10 +87,11 @@ Proof.
   destruct (o_fm o =? 0) eqn:Efm; cbn in H.
   2:{ apply N.eqb_neq in Efm. contradiction. }
   destruct exp as [|e t]; [split; [exact H | intros d []]|].
-  destruct (first_failure (eff (e :: t) o) =? 0) eqn:Eff; cbn [negb] in H.
-  2:{ apply N.eqb_neq in Eff. contradiction. }
-  apply N.eqb_eq in Eff.
-  destruct (forallb (was_put (eff (e :: t) o)) (e :: t)) eqn:Eall; [|discriminate].
+  destruct ((first_failure (eff (e :: t) o) =? 0) && forallb (was_put (eff (e :: t) o)) (e :: t)) eqn:Eok.
+  2:{ exfalso. destruct (admissible _ _ (o_err o)) eqn:Ea; [apply admissible_nonzero in Ea; contradiction|].
+      destruct (first_failure (eff (e :: t) o) =? 0) eqn:Eff; cbn [negb] in H; [discriminate|].
+      apply N.eqb_neq in Eff. contradiction. }
+  apply andb_true_iff in Eok. destruct Eok as (Eff & Eall). apply N.eqb_eq in Eff.
   split; [exact H|].
   intros d Hd. rewrite forallb_forall in Eall. specialize (Eall d Hd).
   unfold was_put in Eall. apply existsb_exists in Eall. destruct Eall as (p & Hp & Hpd).
@@ -120,9 +128,9 @@ Proof.
   - destruct (expected b cas) as [|e t] eqn:Eexp.
     + rewrite eff_nil in Hcf. discriminate.
     + apply first_failure_nonzero in Hcf.
-      destruct (first_failure (eff (e :: t) o) =? 0) eqn:Eff; cbn [negb].
+      destruct (first_failure (eff (e :: t) o) =? 0) eqn:Eff; cbn [negb andb].
       * apply N.eqb_eq in Eff. contradiction.
-      * exact Hcf.
+      * destruct (admissible _ _ (o_err o)) eqn:Ea; [apply admissible_nonzero in Ea; exact Ea | exact Hcf].
   - apply N.eqb_neq in Efm. exact Efm.
 Qed.
 
@@ -559,3 +567,78 @@ Proof.
     + cbn. exact (p_action_model _ _ _ _ _ _ _ _ _ Er eq_refl).
     + rewrite (run_action_clean _ _ _ _ _ _ _ _ _ Er). apply IH.
 Qed.
+
+(* ---- cancellation: a Put that was not issued ------------------------------------------------ *)
+
+(* FindMissing succeeded but some missing blob of the batch was never handed
+   to the CAS (AcquireSemaphore saw a done context): the flush records an
+   error. *)
+Lemma unissued_put_reported_l : forall b cas o b' cas' used,
+  flush_locked b cas o = (b', cas', used) ->
+  (exists d, In d (expected b cas) /\ was_put (eff (expected b cas) o) d = false) ->
+  b_ferr b' <> 0.
+Proof.
+  intros b cas o b' cas' used H (d & Hd & Hw). unfold flush_locked in H. inversion H; subst; clear H. cbn.
+  intros Hz. apply flush_error_zero in Hz. destruct Hz as (_ & Hst).
+  specialize (Hst d Hd). unfold stored in Hst. apply in_map_iff in Hst. destruct Hst as (p & Hpd & Hp).
+  apply filter_In in Hp. destruct Hp as (Hp & _).
+  assert (was_put (eff (expected b cas) o) d = true).
+  { unfold was_put. apply existsb_exists. exists p. split; [exact Hp | apply N.eqb_eq; exact Hpd]. }
+  congruence.
+Qed.
+
+Lemma first_failure_failed : forall ps, first_failure ps <> 0 -> failed_code ps (first_failure ps) = true.
+Proof.
+  intros ps H. unfold first_failure in *.
+  destruct (filter (fun p => negb (snd p =? 0)) ps) as [|q t] eqn:E; [contradiction|].
+  assert (In q (filter (fun p => negb (snd p =? 0)) ps)) as Hq by (rewrite E; left; reflexivity).
+  apply filter_In in Hq. destruct Hq as (Hin & Hnz).
+  unfold failed_code. apply existsb_exists. exists q. split; [exact Hin|]. rewrite Hnz, N.eqb_refl. reflexivity.
+Qed.
+
+(* What a failed batch reports: the FindMissing error; or the code of one of
+   the failed Puts; or, if some Put was not issued, CANCELLED /
+   DEADLINE_EXCEEDED (the done context's status). *)
+Lemma flush_error_source : forall ferr exp o,
+  let e := flush_error ferr exp o in
+  e = ferr \/ (o_fm o <> 0 /\ e = o_fm o) \/
+  failed_code (eff exp o) e = true \/
+  (forallb (was_put (eff exp o)) exp = false /\ ctx_code e = true).
+Proof.
+  intros ferr exp o. cbn zeta. unfold flush_error.
+  destruct (o_fm o =? 0) eqn:Efm; cbn [negb].
+  2:{ right. left. split; [apply N.eqb_neq; exact Efm | reflexivity]. }
+  destruct exp as [|x t]; [left; reflexivity|].
+  destruct (first_failure (eff (x :: t) o) =? 0) eqn:Eff; cbn [andb negb].
+  - destruct (forallb (was_put (eff (x :: t) o)) (x :: t)) eqn:Eall; [left; reflexivity|].
+    destruct (admissible (eff (x :: t) o) false (o_err o)) eqn:Ea.
+    + unfold admissible in Ea. apply andb_true_iff in Ea. destruct Ea as (_ & Ea).
+      apply orb_true_iff in Ea. destruct Ea as [Ea | Ea]; [right; right; left; exact Ea|].
+      right. right. right. split; [reflexivity | exact Ea].
+    + right. right. right. split; reflexivity.
+  - apply N.eqb_neq in Eff.
+    destruct (admissible (eff (x :: t) o) _ (o_err o)) eqn:Ea.
+    + unfold admissible in Ea. apply andb_true_iff in Ea. destruct Ea as (_ & Ea).
+      apply orb_true_iff in Ea. destruct Ea as [Ea | Ea]; [right; right; left; exact Ea|].
+      apply andb_true_iff in Ea. destruct Ea as (Ea1 & Ea2). apply negb_true_iff in Ea1.
+      right. right. right. split; assumption.
+    + right. right. left. apply first_failure_failed. exact Eff.
+Qed.
+
+Section Cancelled.
+  Variables (batch : nat) (b : bstore) (cas : list N) (a : action) (ao : aoracle).
+  Variables (b2 : bstore) (cas2 : list N) (o : oaction) (fits : bool).
+  Hypothesis Hrun : run_action batch b cas a ao = (b2, cas2, o, fits).
+
+  (* An upload the batching layer acknowledged did not reach the CAS (its
+     batch was cancelled or failed): the action's response carries an error,
+     advertises nothing, and nothing is cached. *)
+  Lemma lost_ack_not_cached_l :
+    (exists d, In d (acked (a_blobs a) (oa_puts o)) /\ memN d (oa_cas o) = false) ->
+    r_code (oa_resp o) <> 0 /\ oa_ac o = None /\ advertises_nothing (oa_resp o) = true.
+  Proof.
+    intros (d & Hd & Hm). apply (failure_pruned_l batch b cas a ao b2 cas2 o fits Hrun).
+    unfold upload_failed. apply orb_true_iff. right. apply negb_true_iff, N.eqb_neq. intros Hz.
+    pose proof (ack_stored_or_reported_l batch b cas a ao b2 cas2 o fits Hrun Hz d Hd). congruence.
+  Qed.
+End Cancelled.
